@@ -9,6 +9,9 @@ Parameters / trusted: Go's `regexp` (the recogniser is hand-written for the lite
 below), `strconv.Atoi` (modelled as `digitsToNat` plus the 2^63 guard).
 -/
 import Apko.Model.Version
+import Apko.Proofs.Lemmas.VersionRender
+import Apko.Proofs.Lemmas.VersionConstraintIff
+import Apko.Proofs.Lemmas.VersionRegex
 
 namespace Apko.C03
 open Apko
@@ -398,5 +401,289 @@ theorem recognise_wf {s : Text} {r : RawVersion} (h : recognise s = some r) : WF
         · simp only [Option.some.injEq] at h; subst h; exact hk
         · simp at h
     · simp at h
+
+/-! ## the grammar characterisation (lemmas: `Proofs/Lemmas/VersionGrammar*.lean`)
+
+`VersionGrammar.Grammar s r` spells `Generated.versionRegex` (tied above) as a concatenation
+
+    s = d₁ ++ ("." dᵢ)* ++ letter? ++ (preTok digits*)? ++ (postTok digits*)? ++ ("-r" digits⁺)?
+
+with the `dᵢ` non-empty digit strings, the tokens the non-empty keys of the regenerated switch
+tables, and `r : RawVersion` recording the pieces. -/
+
+section grammar
+open VersionGrammar
+
+/-- T `parse_iff_grammar` (raw form): the recogniser accepts exactly the grammar's words, with
+exactly the recorded pieces; its greedy choices (maximal digit runs, a letter after the numbers,
+`_pre` against `_p`) are forced. -/
+theorem parse_iff_grammar_raw (s : Text) (r : RawVersion) : recognise s = some r ↔ Grammar s r :=
+  recognise_iff_grammar s r
+
+/-- T `parse_iff_grammar`: a string is a version iff it matches the grammar, and its value is
+the value of its (unique) grammar parse. -/
+theorem parse_iff_grammar (s : Text) (v : Version) :
+    Spec.parseVersion s = some v ↔ ∃ r, Grammar s r ∧ r.toVersion = v := by
+  unfold Spec.parseVersion
+  rw [Option.map_eq_some_iff]
+  constructor
+  · rintro ⟨r, hr, hv⟩; exact ⟨r, recognise_sound hr, hv⟩
+  · rintro ⟨r, hr, hv⟩; exact ⟨r, recognise_complete hr, hv⟩
+
+/-- accepted iff in the grammar -/
+theorem accepts_iff_grammar (s : Text) : (Spec.parseVersion s).isSome = true ↔ ∃ r, Grammar s r := by
+  rw [Option.isSome_iff_exists]
+  constructor
+  · rintro ⟨v, hv⟩
+    obtain ⟨r, hr, _⟩ := (parse_iff_grammar s v).mp hv
+    exact ⟨r, hr⟩
+  · rintro ⟨r, hr⟩
+    exact ⟨r.toVersion, (parse_iff_grammar s _).mpr ⟨r, hr, rfl⟩⟩
+
+/-- the grammar is unambiguous: no string has two parses -/
+theorem grammar_unambiguous {s : Text} {r r' : RawVersion} (h : Grammar s r) (h' : Grammar s r') :
+    r = r' := grammar_functional h h'
+
+/-- the code's parser, characterised: the grammar plus the 2^63 bound on every numeric field -/
+theorem impl_parse_iff_grammar (s : Text) (v : Version) :
+    Impl.parseVersion s = some v ↔
+      ∃ r, Grammar s r ∧ r.fields.all (fun f => digitsToNat f ≤ maxInt) = true ∧ r.toVersion = v := by
+  unfold Impl.parseVersion
+  constructor
+  · intro h
+    cases hr : recognise s with
+    | none => simp [hr] at h
+    | some r =>
+      simp only [hr] at h
+      split at h
+      · rename_i hs
+        exact ⟨r, recognise_sound hr, hs, by simpa using h⟩
+      · simp at h
+  · rintro ⟨r, hg, hs, hv⟩
+    rw [recognise_complete hg]
+    simp [hs, hv]
+
+/-- non-vacuity of `Grammar`: a word using every group, and its recorded pieces -/
+example : Grammar "1.20b_rc3_p4-r5".toList
+    ⟨["1".toList, "20".toList], 98, 4, "3".toList, 5, "4".toList, "5".toList⟩ :=
+  (parse_iff_grammar_raw _ _).mp rfl
+
+/-- `_pre` is not `_p` followed by `re`; a dot needs a digit; a token needs a number before it -/
+example : (∃ r, Grammar "1_pre2".toList r ∧ r.pre = 3 ∧ r.post = Generated.postNone) ∧
+    (¬ ∃ r, Grammar "1._p".toList r) ∧ (¬ ∃ r, Grammar "_p1".toList r) ∧
+    (¬ ∃ r, Grammar "1-r".toList r) ∧ (¬ ∃ r, Grammar "1_p_rc".toList r) := by
+  refine ⟨⟨_, (parse_iff_grammar_raw _ _).mp rfl, rfl, rfl⟩, ?_, ?_, ?_, ?_⟩ <;>
+  · rw [← accepts_iff_grammar]; decide
+
+/-- T `recognise_wfv`: everything the parser returns is well-formed … -/
+theorem recognise_wfv {s : Text} {r : RawVersion} (h : recognise s = some r) : WFv r.toVersion :=
+  VersionGrammar.recognise_wfv h
+
+/-- T `parse_render` (non-vacuity): … and every well-formed `Version` is reachable — the
+grammar-level parser reads its canonical spelling back. -/
+theorem parse_render (v : Version) (h : WFv v) : Spec.parseVersion (render v) = some v :=
+  VersionGrammar.parse_render h
+
+/-- the range of the parser is exactly the well-formed versions -/
+theorem parse_range (v : Version) : WFv v ↔ ∃ s, Spec.parseVersion s = some v := by
+  constructor
+  · intro h; exact ⟨render v, parse_render v h⟩
+  · rintro ⟨s, hs⟩
+    obtain ⟨r, hr, rfl⟩ := (parse_iff_grammar s v).mp hs
+    exact grammar_wfv hr
+
+/-- the code's parser reads the canonical spelling back too when every field is below 2^63 … -/
+theorem impl_parse_render (v : Version) (h : WFv v) (hs : Small v) :
+    Impl.parseVersion (render v) = some v := VersionGrammar.impl_parse_render h hs
+
+/-- … so its range is exactly the well-formed versions with every field below 2^63 -/
+theorem impl_parse_range (v : Version) : (WFv v ∧ Small v) ↔ ∃ s, Impl.parseVersion s = some v := by
+  constructor
+  · rintro ⟨h, hs⟩; exact ⟨render v, impl_parse_render v h hs⟩
+  · rintro ⟨s, hs⟩
+    obtain ⟨r, hr, hsm, rfl⟩ := (impl_parse_iff_grammar s v).mp hs
+    exact ⟨grammar_wfv hr, fields_small_toVersion hsm⟩
+
+/-- the canonical spelling determines the version -/
+theorem render_injective {v w : Version} (hv : WFv v) (hw : WFv w) (h : render v = render w) :
+    v = w := VersionGrammar.render_injective hv hw h
+
+/-- `WFv` implies the `WF` the order theorems ask for -/
+theorem wfv_wf {v : Version} (h : WFv v) : WF v := h.2.2.1
+
+example : WFv ⟨[1, 20], 98, 4, 3, 5, 4, 5⟩ ∧ Small ⟨[1, 20], 98, 4, 3, 5, 4, 5⟩ ∧
+    render ⟨[1, 20], 98, 4, 3, 5, 4, 5⟩ = "1.20b_rc3_p4-r5".toList := by decide
+
+end grammar
+
+/-! ## constraints (lemmas: `Proofs/Lemmas/VersionConstraint.lean`)
+
+Side conditions, exactly what the greedy groups of `Generated.packageNameRegex` force:
+`NameText` = `[^@=><~]+`; `OpsText` = `[=><~]+`; `VerText` = `[^@]+` **not starting with an
+operator character** (the operator run would take it); `PinG pp pin` = `pp` is empty (and
+`pin = ""`) or `pp = "@" ++ pin` with `pin` in `[a-zA-Z0-9]+`. -/
+
+section constraints
+open VersionGrammar
+
+/-- T `constraint_split`: `name ops ver [@pin]` comes back as its parts (name not `so:`) -/
+theorem constraint_split {name ops ver pp pin : Text} (hn : NameText name)
+    (hso : stripPrefix "so:".toList name = none) (ho : OpsText ops) (hv : VerText ver)
+    (hp : PinG pp pin) :
+    parseConstraint (name ++ (ops ++ (ver ++ pp))) = ⟨name, ver, opOf ops, pin⟩ :=
+  VersionGrammar.constraint_split hn hso ho hv hp
+
+/-- … and for the operators of the regenerated switch the dependency is the switch's constant -/
+theorem constraint_split_op {name ver pp pin : Text} {op nm : String}
+    (hop : (op, nm) ∈ Generated.opSwitch) (hn : NameText name)
+    (hso : stripPrefix "so:".toList name = none) (hv : VerText ver) (hp : PinG pp pin) :
+    parseConstraint (name ++ (op.toList ++ (ver ++ pp))) =
+      ⟨name, ver, (Dep.ofName nm).getD .any, pin⟩ := by
+  obtain ⟨ho, he⟩ := opOf_key hop
+  rw [VersionGrammar.constraint_split hn hso ho hv hp, he]
+
+/-- without a version: `name`, `name@pin` (also for `so:` names) -/
+theorem constraint_split_bare {name pp pin : Text} (hn : NameText name) (hp : PinG pp pin) :
+    parseConstraint (name ++ pp) = ⟨name, [], .any, pin⟩ :=
+  VersionGrammar.constraint_split_bare hn hp
+
+/-- the `so:` rule for `=`: unless the text after `=` (pin included) ends in `-rN`, the version
+is read with `0.` prepended -/
+theorem constraint_so_eq {name ver pp pin : Text} (hn : NameText name)
+    (hso : ∃ t, name = "so:".toList ++ t) (hv : ver.all (fun c => c != '@') = true)
+    (hp : PinG pp pin) (hrel : endsWithRelease (ver ++ pp) = false) :
+    parseConstraint (name ++ ('=' :: (ver ++ pp))) = ⟨name, "0.".toList ++ ver, .eq, pin⟩ := by
+  have := constraint_so (o1 := []) hn hso rfl (by simp) hv hp hrel
+  have he : opOf ['='] = .eq := by decide
+  simpa [he] using this
+
+/-- … and when it does end in `-rN` the constraint is read as written -/
+theorem constraint_so_eq_release {name ver : Text} (hn : NameText name) (hv : VerText ver)
+    (hrel : endsWithRelease ver = true) :
+    parseConstraint (name ++ ('=' :: ver)) = ⟨name, ver, .eq, []⟩ := by
+  have := constraint_so_release (o1 := []) (o2 := []) hn rfl (by simp) rfl hv hrel
+  have he : opOf ['='] = .eq := by decide
+  simpa [he] using this
+
+/-- observation (what the code does, confirmed on Go): the release test is applied to the text
+after `=` *including* `@pin`, so a pinned `so:` constraint is always rewritten, even when its
+version ends in `-rN` -/
+theorem constraint_so_pinned {name ver pin : Text} (hn : NameText name)
+    (hso : ∃ t, name = "so:".toList ++ t) (hv : ver.all (fun c => c != '@') = true)
+    (hp : PinText pin) :
+    parseConstraint (name ++ ('=' :: (ver ++ '@' :: pin))) = ⟨name, "0.".toList ++ ver, .eq, pin⟩ :=
+  constraint_so_eq hn hso hv (.some pin hp) (endsWithRelease_pinned ver hp)
+
+example : parseConstraint "so:libfoo.so.1=1.2-r3@edge".toList =
+    ⟨"so:libfoo.so.1".toList, "0.1.2-r3".toList, .eq, "edge".toList⟩ :=
+  constraint_so_pinned (name := "so:libfoo.so.1".toList) (ver := "1.2-r3".toList)
+    (pin := "edge".toList) (by decide) ⟨_, rfl⟩ (by decide) (by decide)
+
+/-- `-r\d+$` -/
+theorem endsWithRelease_iff (v : Text) :
+    endsWithRelease v = true ↔ ∃ p d, v = p ++ '-' :: 'r' :: d ∧ IsNum d :=
+  VersionGrammar.endsWithRelease_iff v
+
+/-- `SatisfiedBy` follows `satisfies` (hence, by `satisfies_is_spec`, the order) on the parsed
+constraint version; an empty version accepts everything -/
+theorem satisfiedBy_follows (parse : Text → Option Version) (c : Constraint) (v pv : Version)
+    (hne : c.version ≠ []) (hp : parse c.version = some pv) :
+    c.satisfiedBy parse v = some (Spec.satisfies c.dep v pv) := by
+  unfold Constraint.satisfiedBy
+  cases hcv : c.version with
+  | nil => exact absurd hcv hne
+  | cons a as => rw [hcv] at hp; simp [hp, satisfies_is_spec]
+
+/-- the constraint expression as a relation: `PkgMatch s n o v p` = "the anchored
+`packageNameRegex` matches `s` with submatches name `n`, operator run `o`, version `v`, pin `p`"
+(all matches, any split of operator run / version).  The model returns exactly the match whose
+operator run is longest (`OpsLongest v`: the version does not start with an operator character,
+or is the one character the run had to give back) … -/
+theorem matchPackageName_iff (s n o v p : Text) :
+    matchPackageName s = some (n, o, v, p) ↔ PkgMatch s n o v p ∧ OpsLongest v :=
+  VersionGrammar.matchPackageName_iff s n o v p
+
+/-- … whose operator run is at least as long as in any other match … -/
+theorem matchPackageName_longest {s n o v p n' o' v' p' : Text}
+    (h : matchPackageName s = some (n, o, v, p)) (h' : PkgMatch s n' o' v' p') :
+    o'.length ≤ o.length := VersionGrammar.matchPackageName_longest h h'
+
+/-- … and fails exactly when the expression does not match at all. -/
+theorem matchPackageName_none_iff (s : Text) :
+    matchPackageName s = none ↔ ¬ ∃ n o v p, PkgMatch s n o v p :=
+  VersionGrammar.matchPackageName_none_iff s
+
+/-- `ResolvePackageNameVersionPin` on every input: rewrite (`so:` rule), then the longest-run
+match decides the four fields; with no match the whole (rewritten) string is the name. -/
+theorem parseConstraint_spec (s : Text) :
+    (∀ n o v p, PkgMatch (soRewrite s) n o v p → OpsLongest v →
+      parseConstraint s = ⟨n, v, if o.isEmpty then .any else opOf o, p⟩) ∧
+    ((¬ ∃ n o v p, PkgMatch (soRewrite s) n o v p) →
+      parseConstraint s = ⟨soRewrite s, [], .any, []⟩) := by
+  constructor
+  · intro n o v p hm hl
+    exact parseConstraint_of_match rfl (matchPackageName_complete hm hl)
+  · intro h
+    have := (VersionGrammar.matchPackageName_none_iff _).mpr h
+    unfold parseConstraint
+    simp only [this]
+
+/-- the hypotheses of `constraint_split_op` are satisfiable by a non-trivial value -/
+example : parseConstraint "busybox>=1.36.1-r2@edge".toList =
+    ⟨"busybox".toList, "1.36.1-r2".toList, .ge, "edge".toList⟩ :=
+  constraint_split_op (op := ">=") (nm := "versionGreaterEqual") (name := "busybox".toList)
+    (ver := "1.36.1-r2".toList) (pp := "@edge".toList) (pin := "edge".toList)
+    (by decide) (by decide) (by decide) (by decide) (.some _ (by decide))
+
+example : parseConstraint "so:libc.so.6=1.2".toList =
+      ⟨"so:libc.so.6".toList, "0.1.2".toList, .eq, []⟩ ∧
+    parseConstraint "so:libc.so.6=1.2-r3".toList =
+      ⟨"so:libc.so.6".toList, "1.2-r3".toList, .eq, []⟩ :=
+  ⟨constraint_so_eq (name := "so:libc.so.6".toList) (pp := []) (ver := "1.2".toList) (pin := [])
+      (by decide) ⟨_, rfl⟩ (by decide) .none (by decide),
+   constraint_so_eq_release (name := "so:libc.so.6".toList) (ver := "1.2-r3".toList)
+      (by decide) (by decide) (by decide)⟩
+
+end constraints
+
+/-! ## the expressions themselves (lemmas: `Proofs/Lemmas/VersionRegex.lean`)
+
+`Re` is a regular-expression syntax with the textbook whole-string denotation `Re.M` and a
+printer.  The three syntax trees print to the literals regenerated from version.go; their
+denotations are the grammar / match relation / release test proved above.  So "accepted iff it
+matches the grammar" is stated against the expression in the code, and what remains trusted of
+Go's `regexp` is that it gives this printed syntax its standard meaning (plus leftmost-first
+submatch priority for the constraint groups). -/
+
+section regex
+open VersionGrammar
+
+theorem tie_versionRegex_syntax :
+    String.ofList ('^' :: (versionRe.print ++ ['$'])) = Generated.versionRegex := tie_versionRe_print
+theorem tie_packageNameRegex_syntax :
+    String.ofList ('^' :: (pkgRe.print ++ ['$'])) = Generated.packageNameRegex := tie_pkgRe_print
+theorem tie_endsWithRelease_syntax :
+    String.ofList (releaseRe.print ++ ['$']) = Generated.endsWithReleaseStr := tie_releaseRe_print
+
+/-- a string is accepted as a version iff it matches `versionRegex` -/
+theorem version_accepted_iff_regex (s : Text) :
+    (Spec.parseVersion s).isSome = true ↔ versionRe.M s := by
+  rw [accepts_iff_grammar, versionRe_M]
+
+/-- the regex denotes the grammar -/
+theorem versionRegex_is_grammar (s : Text) : versionRe.M s ↔ ∃ r, Grammar s r := versionRe_M s
+
+/-- the constraint expression denotes `PkgMatch`, and the parser matches iff it does -/
+theorem packageNameRegex_is_pkgMatch (s : Text) : pkgRe.M s ↔ ∃ n o v p, PkgMatch s n o v p :=
+  pkgRe_M s
+theorem constraint_matches_iff_regex (s : Text) :
+    (matchPackageName s).isSome = true ↔ pkgRe.M s := matchPackageName_isSome_iff_regex s
+
+/-- `endsWithRelease` is "`-r\d+$` finds a match" -/
+theorem endsWithRelease_iff_regex (v : Text) :
+    endsWithRelease v = true ↔ ∃ p x, v = p ++ x ∧ releaseRe.M x :=
+  VersionGrammar.endsWithRelease_iff_regex v
+
+end regex
 
 end Apko.C03
